@@ -1228,22 +1228,28 @@ func (rs RangeSorter) Normalize() RangeSorter {
 	if ll := rs.Len(); ll > 1 {
 		prev := 0
 		for i := 1; i < ll; i++ {
-			if rs[prev].Low == rs[i].Low {
-				// Earlier range is guaranteed to be wider or equal to the later range,
-				// collapse two ranges into one (by doing nothing)
-				continue
+			// Ranges are half-open [Low, Hi); Hi == 0 denotes a single ID, i.e. [Low, Low+1).
+			prevHi := rs[prev].Hi
+			if prevHi == 0 {
+				prevHi = rs[prev].Low + 1
 			}
-			// Check for full or partial overlap
-			if rs[prev].Hi > 0 && rs[prev].Hi+1 >= rs[i].Low {
-				// Partial overlap
-				if rs[prev].Hi < rs[i].Hi {
-					rs[prev].Hi = rs[i].Hi
+			hi := rs[i].Hi
+			if hi == 0 {
+				hi = rs[i].Low + 1
+			}
+			if prevHi >= rs[i].Low {
+				// Overlapping or adjacent ranges: merge into the previous one.
+				if prevHi < hi {
+					prevHi = hi
 				}
-				// Otherwise the next range is fully within the previous range, consume it by doing nothing.
+				if prevHi > rs[prev].Low+1 {
+					rs[prev].Hi = prevHi
+				}
 				continue
 			}
-			// No overlap
+			// Disjoint range: keep it.
 			prev++
+			rs[prev] = rs[i]
 		}
 		rs = rs[:prev+1]
 	}
